@@ -402,6 +402,18 @@ def cross_key(ctx, files: Set[str]) -> int:
         if m is None:
             continue
         for fn in m.funcs.values():
+            # only inside a normalisation block: at least two other statements of the shape d["k"] = conv(d["k"]) in the same function
+            own_key = 0
+            for st0 in ast.walk(fn.node):
+                if isinstance(st0, ast.Assign) and len(st0.targets) == 1 and isinstance(st0.targets[0], ast.Subscript) and isinstance(st0.targets[0].slice, ast.Constant) \
+                        and isinstance(st0.targets[0].value, ast.Name):
+                    k0 = st0.targets[0].slice.value
+                    rk = {x.slice.value for x in ast.walk(st0.value) if isinstance(x, ast.Subscript) and isinstance(x.value, ast.Name) and x.value.id == st0.targets[0].value.id
+                          and isinstance(x.slice, ast.Constant)}
+                    if rk == {k0}:
+                        own_key += 1
+            if own_key < 2:
+                continue
             for st_ in ast.walk(fn.node):
                 if not (isinstance(st_, ast.Assign) and len(st_.targets) == 1 and isinstance(st_.targets[0], ast.Subscript)):
                     continue
